@@ -534,7 +534,15 @@ func (r *resolver) resolveRef(rs *Resolved, s *Schema, ref string) (_ *Schema, d
 	}
 	// URI-resolve the ref against the current base URI to get a complete URI.
 	base := rs.resolvedInfos[s].base
-	refURI = rs.resolvedInfos[base].uri.ResolveReference(refURI)
+	baseURI := rs.resolvedInfos[base].uri
+	sameDocument := refURI.Scheme == "" && refURI.Host == "" && refURI.Path == "" && refURI.RawQuery == "" && !refURI.ForceQuery
+	refURI = baseURI.ResolveReference(refURI)
+	if sameDocument {
+		// A reference that is only a fragment inherits the query of its base, also an
+		// empty one ("http://a/x?"), which [url.URL.ResolveReference] drops. Without it
+		// the reference would not find the schema it is written in.
+		refURI.ForceQuery = baseURI.ForceQuery
+	}
 	// The non-fragment part of a ref URI refers to the base URI of some schema.
 	// This part is the same for dynamic refs too: their non-fragment part resolves
 	// lexically.
